@@ -14,7 +14,10 @@ def run(ctx):
     hx = sm.build_harness(ctx)
     traces = []
     if ok and hx:
-        if ctx.replay:
+        gc_replay = bool(ctx.replay) and "-mode gc" in open(ctx.replay).read()
+        if gc_replay:
+            runs = []        # the replay of a collector failure is the gc mode itself (below)
+        elif ctx.replay:
             runs = [("replay", ["-mode", "replay", "-file", ctx.replay])]
         else:
             runs = [("corpus-" + os.path.basename(f), ["-mode", "replay", "-file", f])
@@ -28,7 +31,7 @@ def run(ctx):
                          ("random-shadow", ["-mode", "random", "-world", "shadow", "-nofaults", "-cases", "6000", "-len", "40"]),
                          ("conc", ["-mode", "conc", "-cases", "3000"])]
         traces = sm.run_traces(ctx, hx, runs, "C11")
-        if not ctx.replay:
+        if not ctx.replay or gc_replay:
             # collector scenarios (judged directly): only a Reader / a WithBytesFunc closure is kept, GC and
             # finalizers run, the unclosed secret must still be readable
             tr = os.path.join(ctx.work, "gc.trace")
